@@ -403,6 +403,15 @@ impl Gen<'_> {
             }
             5 => Node::Boxed(Box::new(self.node(depth + 1, top))),
             _ => {
+                if self.globals == 0 && self.rng.chance(1, 3) {
+                    // a Vec all of whose members are dynamic global filters (interest
+                    // `sometimes`, so the Vec's `enabled` - every member must agree - decides;
+                    // a member answering `always` would bring in recorded finding F25)
+                    self.globals += 2;
+                    let a = Node::Global(Pred::DynFn(gen_mask(self.rng, true)), 0);
+                    let b = Node::Global(Pred::DynFn(gen_mask(self.rng, true)), 0);
+                    return Node::Many(vec![a, b]);
+                }
                 self.globals += 1;
                 if self.allow_evveto && self.rng.chance(1, 2) {
                     Node::EvVeto(gen_mask(self.rng, false))
